@@ -11,6 +11,8 @@ import (
 
 	"go.brendoncarroll.net/p2p"
 	"go.brendoncarroll.net/p2p/f/x509"
+	"go.brendoncarroll.net/p2p/p/mbapp"
+	"go.brendoncarroll.net/p2p/s/fragswarm"
 	"go.brendoncarroll.net/p2p/s/memswarm"
 	"go.brendoncarroll.net/p2p/zsimrt"
 
@@ -170,6 +172,11 @@ func (l *Ledger) Diagnose(p []byte) string {
 // ---- world construction -------------------------------------------------------
 
 func NewWorld(st *simcore.Stream, res *simcore.Result, logOn bool, spec string, p Params) *World {
+	// guarded hooks of /repo (build tag verif): where the per-peer fragment message ids and the
+	// message-box counter start. Header sizes grow with them (varints) and they wrap at 2^32.
+	ids := []uint32{0, 0, 0, 0, 126, 127, 16382, 16383, 1<<21 - 2, 1 << 21, 1<<28 - 2, 1 << 28, 1<<32 - 3}
+	fragswarm.VerifFirstMsgID.Store(ids[st.Intn(len(ids))])
+	mbapp.VerifFirstCounter.Store(ids[st.Intn(len(ids))])
 	sim := zsimrt.New(st)
 	sim.LogOn = logOn
 	w := &World{Sim: sim, St: st, Res: res, P: p, Spec: spec}
